@@ -161,6 +161,28 @@ pub fn run(ctx: &Ctx) -> i32 {
                 }
                 _ => rep.violation("text-vs-value", "c14-text-vs-value-load", "Rule::from_value rejects a rule that Rule::from_str accepts", json!({"rule": text})),
             }
+            // text as a person might write it: raw tab characters inside double-quoted scalars
+            // (serde_yaml itself always writes the \t escape)
+            if text.contains("\\t") {
+                let raw = text.replace("\\t", "\t");
+                if let Ok(rv) = serde_yaml::from_str::<Y>(&raw) {
+                    if yaml_same(&rv, &orig_value) {
+                        rep.count("raw_tab_texts");
+                        rep.evaluations += 1;
+                        match (eng::load(&raw), eng::load_value(rv)) {
+                            (Ok(Load::Ok(a)), Ok(Load::Ok(b))) => {
+                                let va: Vec<bool> = maps.iter().map(|m| eng::matches(&a, m).unwrap_or(false)).collect();
+                                let vb: Vec<bool> = maps.iter().map(|m| eng::matches(&b, m).unwrap_or(true)).collect();
+                                if eng::printed(&a) != eng::printed(&b) || va != vb || va != base {
+                                    rep.violation("text-vs-value", "c14-text-vs-value-rawtab", "Rule::from_str and Rule::from_value disagree on a text with a raw tab inside a quoted scalar", json!({"rule": raw}));
+                                }
+                            }
+                            (Ok(Load::Ok(_)), _) | (_, Ok(Load::Ok(_))) => rep.violation("text-vs-value", "c14-text-vs-value-load", "only one of from_str / from_value accepts a text with a raw tab inside a quoted scalar", json!({"rule": raw})),
+                            _ => {}
+                        }
+                    }
+                }
+            }
             for sw in [Sw(0), Sw(15), Sw(1), Sw(2), Sw(10)] {
                 let r = if sw.0 == 0 {
                     rule.clone()
